@@ -154,6 +154,9 @@ def task_src_vs_ic10(spec: dict) -> dict:
         out["status"] = "unsupported"
         out["detail"] = str(e)
     except Exception as e:  # harness problem: reported, never a violation
+        if "Timeout" in f"{type(e).__name__}{e}":
+            out["status"] = "timeout"  # SIGALRM surfaced inside a z3 callback
+            return out
         out["status"] = "harness_error"
         out["detail"] = f"{type(e).__name__}: {e}"
         out["tb"] = traceback.format_exc()[-1500:]
@@ -213,6 +216,9 @@ def task_ic10_vs_ic10(spec: dict) -> dict:
         out["status"] = "unsupported"
         out["detail"] = str(e)
     except Exception as e:
+        if "Timeout" in f"{type(e).__name__}{e}":
+            out["status"] = "timeout"
+            return out
         out["status"] = "harness_error"
         out["detail"] = f"{type(e).__name__}: {e}"
         out["tb"] = traceback.format_exc()[-1500:]
@@ -340,6 +346,9 @@ def task_monitor(spec: dict) -> dict:
         out["status"] = "unsupported"
         out["detail"] = str(e)
     except Exception as e:
+        if "Timeout" in f"{type(e).__name__}{e}":
+            out["status"] = "timeout"
+            return out
         out["status"] = "harness_error"
         out["detail"] = f"{type(e).__name__}: {e}"
         out["tb"] = traceback.format_exc()[-1500:]
@@ -466,6 +475,9 @@ def task_vectors(spec: dict) -> dict:
         out["status"] = "unsupported"
         out["detail"] = str(e)
     except Exception as e:
+        if "Timeout" in f"{type(e).__name__}{e}":
+            out["status"] = "timeout"
+            return out
         out["status"] = "harness_error"
         out["detail"] = f"{type(e).__name__}: {e}"
         out["tb"] = traceback.format_exc()[-1500:]
